@@ -172,10 +172,10 @@ INT_BIG = Palette("int/2^63", "int", [-2**63, -2**53 - 1, 2**53 + 1, 2**63 - 1],
 STR_SHORT = Palette("str/short", "str", ["A", "a", "ab", "é"], na="", full_dtype=str)
 STR_LONG = Palette("str/long", "str", [LONG + "A", LONG + "a", LONG + "ab", LONG + "é"], na="", full_dtype=str)
 STR_MIXED = Palette("str/mixed", "str", ["A", "a", "ab" + LONG, "b"], na="", full_dtype=str)
-STR_FIXED = Palette("str/fixedU", "str", ["A", "a", "ab", "é"], na="", as_array=True)
+STR_FIXED = Palette("str/fixedU", "str", ["A", "a", "ab", "é"], na="", as_array=True, full_dtype="U2")
 STR_ASTRAL = Palette("str/astral", "str", ["a", "￿", "￿a", "\U0001F600"], na="", full_dtype=str)
 BOOL = Palette("bool", "bool", [False, True], has_na=False, full_dtype=bool)
-BOOL_OBJ = Palette("bool/obj", "obj", [False, True], na=None, orderable=False)
+BOOL_OBJ = Palette("bool/obj", "obj", [False, True], na=None, orderable=False, full_dtype=object)
 DATE = Palette("date", "date", [D(1, 1, 1), D(1969, 12, 31), D(1970, 1, 1), D(9999, 12, 31)], na=None, full_dtype="datetime64[D]")
 DATETIME = Palette("datetime", "datetime",
                    [DT(1, 1, 1), DT(1969, 12, 31, 23, 59, 59, 999999), DT(1970, 1, 1), DT(9999, 12, 31, 23, 59, 59)],
@@ -183,7 +183,7 @@ DATETIME = Palette("datetime", "datetime",
 TIMEDELTA = Palette("timedelta", "timedelta",
                     [np.timedelta64(-5, "s"), np.timedelta64(0, "s"), np.timedelta64(3, "s"), np.timedelta64(10**9, "s")],
                     na=np.timedelta64("NaT"), as_array=True, full_dtype="timedelta64[s]")
-BYTES = Palette("bytes", "bytes", [b"A", b"a", b"ab", b"b"], has_na=False)
+BYTES = Palette("bytes", "bytes", [b"A", b"a", b"ab", b"b"], has_na=False, full_dtype="S2")
 OBJ_INT = Palette("obj/int", "obj", [1, 2, 3, 4], na=None, dtype=object)
 
 ALL = [FLOAT_INF, FLOAT_BIG, FLOAT_HUGE, INT_SMALL, INT_BIG, STR_SHORT, STR_LONG, STR_MIXED, STR_FIXED,
